@@ -14,7 +14,9 @@ import (
 // Controller.ButtonAction, in lockstep with ref.Joypad.
 
 type c22Ev struct {
-	Kind string `json:"k"` // "press" "release" "write"
+	Kind string `json:"k"` // "press" "release" "write" "read" (JOYP is only read, and judged, by read events: a read
+	// may itself change hidden state of the implementation — e.g. refresh a cache — so observing after every
+	// event would hide what is pending between two reads)
 	Arg  int    `json:"a"` // button index (ref order) or value
 }
 
@@ -40,6 +42,9 @@ func (n *c22Node) Apply(ev c22Ev) *explore.Fail {
 		n.m.Map.Write(0xff00, uint8(ev.Arg))
 		n.mod.Write(uint8(ev.Arg))
 	}
+	if ev.Kind != "read" {
+		return nil
+	}
 	got, want := n.m.Map.Read(0xff00), n.mod.Read()
 	if got != want {
 		sig := "joyp-mismatch"
@@ -57,8 +62,8 @@ func (n *c22Node) Apply(ev c22Ev) *explore.Fail {
 		case n.mod.Sel == 0x10:
 			sig = "joyp-button-group-wrong"
 		}
-		return explore.Failf(sig, "after %s %d: JOYP reads %02x, documented %02x (select=%02x held dirs=%x buttons=%x)",
-			ev.Kind, ev.Arg, got, want, n.mod.Sel, n.mod.Dirs, n.mod.Btns)
+		return explore.Failf(sig, "JOYP reads %02x, documented %02x (select=%02x held dirs=%x buttons=%x)",
+			got, want, n.mod.Sel, n.mod.Dirs, n.mod.Btns)
 	}
 	// opposite directions never read as pressed together (checked under the direction select)
 	if n.mod.Sel&0x10 == 0 && n.mod.Sel&0x20 != 0 {
@@ -77,7 +82,7 @@ func (n *c22Node) Key() string {
 func init() {
 	register("C22", "model_checking", func(c *Ctx) {
 		if c.R != nil {
-			c.R.Rule = "breadth-first closure of the real Controller (via Mapper FF00 and ButtonAction) paired with the reference joypad; a state is (controller fields, model fields); every transition compares JOYP with the model; non-trivial = distinct (state,event) successor keys"
+			c.R.Rule = "breadth-first closure of the real Controller (via Mapper FF00 and ButtonAction) paired with the reference joypad; a state is (controller fields, model fields); JOYP is read and compared with the model by an explicit read event from every reached state (so any number of presses, releases and writes may lie between two reads); non-trivial = distinct (state,event) successor keys"
 			c.R.Assumptions = []string{"JOYP interrupt requests are not part of the statement", "key = every field of the real Controller struct, rendered by reflection (so a field added later is part of the key), + model fields"}
 		}
 		var evs []c22Ev
@@ -87,6 +92,7 @@ func init() {
 		for v := 0; v < 256; v++ {
 			evs = append(evs, c22Ev{"write", v})
 		}
+		evs = append(evs, c22Ev{"read", 0})
 		explore.BFS(c.R, explore.BFSSpec[int, c22Ev, *c22Node]{
 			Name:   "joypad-closure",
 			Starts: []int{0},
@@ -99,7 +105,7 @@ func init() {
 			Events:     func(*c22Node) []c22Ev { return evs },
 			MaxDepth:   0,
 			MaxDev:     -1,
-			Opt:        explore.PartOpt{Bound: "unbounded depth, closure", Domain: "16 press/release events + 256 JOYP writes from power-on"},
+			Opt:        explore.PartOpt{Bound: "unbounded depth, closure", Domain: "16 press/release events + 256 JOYP writes + read, from power-on"},
 		})
 	})
 }
